@@ -100,7 +100,8 @@ SPEC = dict(
         "lists) and in Example lemmas; no native_compute; all 21 theorems closed under the global context",
         "extraction: ExtrOcamlBasic only (nat, list kept as extracted inductives); OCaml 4.13.1",
         "translator translate/stripe_net.py (regex over avx2.rs::stripe_avx2: unpack! macro arms, 32 loads, "
-        "unpack! invocations, 32 stores; dispatch.rs Stripe arm table) -> coq/stripe/GenStripeNet.v",
+        "unpack! invocations, 32 stores, the block loop's `while` condition (small expression parser) and its three "
+        "end-of-iteration steps; dispatch.rs Stripe arm table) -> coq/stripe/GenStripeNet.v",
         "lane semantics of _mm256_unpack{lo,hi}_epi{8,16,32,64} and _mm256_permute2x128_si256 as index lists "
         "(coq/stripe/NetModel.v), exercised by the correspondence check on every run",
         "hand-written OCaml driver ocaml/stripe/driver.ml (parsing, printing, comparison with the model; the "
@@ -108,7 +109,7 @@ SPEC = dict(
         "Rust harness harness/src/bin/stripe.rs (op interpreter over the public API, catch_unwind, hook "
         "lightmotif::pli::verif::force_backend)",
         "modelled by hand, tied by the correspondence check only: Stripe::stripe/stripe_into (pli/mod.rs), "
-        "stripe_avx2 outside the network (resize, early return, block loop condition, scalar tail, fill), "
+        "stripe_avx2 outside the network and the block loop's condition/steps (resize, early return, scalar tail, fill), "
         "StripedSequence::{new, configure, configure_wrap, Index, count_symbol(s)} (seq.rs), DenseMatrix at table "
         "level (dense.rs; layout is C19)",
     ],
